@@ -426,10 +426,6 @@ func main() {
 			}
 			return c.coq(id, o), false
 		}
-		// C07: a non-timeout net.Error raised under a channel-level entry point closes the channel (wrapped or not)
-		if (c.Entry.Kind == "chanwrite" || c.Entry.Kind == "chantrigger") && o.NetErr == 1 && o.Active {
-			meta.Violate(hx.Violation{Property: "C07", What: "a handler panicked with a non-timeout net.Error (possibly wrapped by another error) under " + c.Entry.Kind + " but the channel is still active", Signature: "net-error-not-closed", Replay: rep})
-		}
 		// oracle 1: structure equals the list specification from both ends
 		want := specList(c.Ops, o.Panics)
 		full := append(append([]int{-1}, want...), -1)
